@@ -409,6 +409,28 @@ func c09Child(c *mon.Child) {
 					ops = append(ops, c09Op{obj: obj, name: nm, run: mkParse(shared, which), want: mkParse(fresh, which)()})
 				}
 			}
+			if ii%4 == 1 {
+				// per-call options must not outlive the call: the same text with a tail, leniently and strictly
+				tail := text + " ) x ("
+				mkOpt := func(b gram.Built, lenient bool) func() string {
+					return func() string {
+						rr := realParse(func() (interface{}, error) {
+							if lenient {
+								return b.ParseString("f", tail, participle.AllowTrailing(true))
+							}
+							return b.ParseString("f", tail)
+						})
+						return canonResult(nil, nil, &rr)
+					}
+				}
+				var Lt []lexer.Token
+				mon.Guard(func() { Lt, _ = fresh.Lex("", strings.NewReader(tail)) })
+				if Lt != nil && affordableK(c, gp, Lt, []int{[]int{1, 3, participle.MaxLookahead}[gi%3]}) {
+					ops = append(ops,
+						c09Op{obj: obj, name: "ParseString(AllowTrailing)", run: mkOpt(shared, true), want: mkOpt(fresh, true)()},
+						c09Op{obj: obj, name: "ParseString(strict, trailing text)", run: mkOpt(shared, false), want: mkOpt(fresh, false)()})
+				}
+			}
 			if ii%3 == 0 {
 				ops = append(ops, c09Op{obj: obj, name: "Lex", run: func() string { return toksCanon(shared.Lex("f", strings.NewReader(text))) }, want: toksCanon(fresh.Lex("f", strings.NewReader(text)))})
 			}
